@@ -34,7 +34,7 @@ def run_oracle(chk, rng, ncases, task, name, grounds, probes=()):
                 sig = dict(stage=name, what=re.sub(r'-?\d+(\.\d+)?', '#', b.split(':')[0])[:48])
                 for fk, fv in (x.get('features') or {}).items():
                     if fv:
-                        sig = dict(stage=name, **{fk: True})
+                        sig[fk] = True          # known findings match on a subset of the signature
                 chk.violation(sig, b, x['spec'])
     chk.stages[name] = dict(cases=n, skipped_outside_domain=skipped)
     if stats:
